@@ -421,7 +421,7 @@ var histTargets = []reflect.Type{
 	jgen.T[struct{ L []histItem }](), jgen.T[*[]histItem](), jgen.T[[]any](), jgen.T[map[string]*histItem](), jgen.T[[]jgen.NamedAny](), jgen.T[any](),
 }
 
-var histDocs = []string{`[{"A":1}]`, `[]`, `[{"B":2}]`, `null`, `[{"A":3},{"B":4}]`, `[{}]`, `[null]`, `{"k":[{"A":5}]}`, `{"k":[{"B":6}],"L":[{"B":7}]}`, `{"k":null,"L":[]}`}
+var histDocs = []string{`[{"A":1}]`, `[]`, `[{"B":2}]`, `null`, `[{"A":3},{"B":4}]`, `[{}]`, `[null]`, `{"k":[{"A":5}]}`, `{"k":[{"B":6}],"L":[{"B":7}]}`, `{"k":null,"L":[]}`, `[{"A":8},{"A":9}]`, `[{"B":2},{"A":9},{"A":1,"B":1}]`, `{"k":[{"B":1},{"A":2}]}`}
 
 func histories(c *explore.Ctx) {
 	t := histTargets[c.Choose(len(histTargets))]
@@ -687,7 +687,7 @@ func Spec() *explore.Spec {
 				Doc: "every type shape of C01's universe (~6700) x {valid documents derived from the type's domain, 200 literal documents: number/string/key tables, malformed forms} x prior state {zero, 6 pre-set values incl. interface-held pointers, result of decoding an earlier document} x entry {Unmarshal, Parse, Decoder x UseNumber x DisallowUnknownFields}; one non-default choice among (entry, prior) per case (two in thorough)"},
 			{Name: "mutated", ShardDepth: 1, Body: mutated, Doc: "leaf / hand-written / map / first-level wrapper types x valid documents x every truncation, deletion, substitution and insertion over a 16-byte class alphabet"},
 			{Name: "token-seqs", ShardDepth: 2, Body: tokenSeqs, Doc: "all token sequences up to 4 (5 thorough) over 18 tokens x 25 target types"},
-			{Name: "histories", ShardDepth: 2, Body: histories, Doc: "every sequence of up to 3 documents (10 documents: arrays that grow, shrink to [], null, objects) decoded one after the other into the same variable of 12 slice / array / map / pointer / interface shapes"},
+			{Name: "histories", ShardDepth: 2, Body: histories, Doc: "every sequence of up to 3 documents (13 documents: arrays that grow, shrink to a shorter non-empty array or to [], null, objects; elements given in part, so that what an element keeps from an earlier decode shows) decoded one after the other into the same variable of 12 slice / array / map / pointer / interface shapes"},
 			{Name: "string-option", ShardDepth: 2, Body: stringOption, Doc: "struct fields tagged ',string' of 22 kinds (floats, signed/unsigned integers, bool, string, pointers to them, Number, any, and float / int / string / bool kinds with their own UnmarshalJSON or UnmarshalText) x every content string built from <= 3 (thorough 4) of 20 tokens (digits, signs, dot, exponent and hex letters, underscore, white space, true/false/null, escaped quotes, Inf, NaN, escapes) - quoted and bare - x {zero, pre-set} target"},
 			{Name: "self-reference", ShardDepth: 2, FatalPerCase: true, Body: selfReference, Doc: "targets whose interface value (any, named empty interface, struct field, slice / array element) holds a pointer to itself, plus a non-cyclic control, x 17 documents x 6 entry points: same result as encoding/json, which decodes into such an interface as if it was empty (a decoder that follows the pointer never returns)"},
 			{Name: "number-literals", ShardDepth: 2, Body: numberLiterals, Doc: "every float64 exponent x 3 (thorough 6) mantissa patterns x both signs, written in ~30 ways (shortest, fixed / exponent / general form with 15..25 digits, float32-shortest, one more digit towards and over the rounding boundary, upper-case exponent) decoded into float64, float32, any and (two mantissas per exponent) pointer, slice, map, struct, integer and array targets x Unmarshal (thorough: also Parse, Decoder): same acceptance and same value as encoding/json"},
